@@ -516,6 +516,7 @@ pub fn gen_universe(t: &mut Tape, p: &Params) -> Universe {
             favored: None,
             locked: None,
             lock_gone: false,
+            hint_unlisted: false,
             hint: Hint::None,
             unlisted,
         });
@@ -569,6 +570,24 @@ pub fn gen_universe(t: &mut Tape, p: &Params) -> Universe {
                 deps: Deps::empty(),
                 excluded: None,
             });
+        }
+        // an unlisted solvable may be reported as excluded (derived from its dependencies: no
+        // extra tape value)
+        if p.lock_gone && !b.u.strings.is_empty() {
+            let ns = b.u.strings.len();
+            for ci in 0..b.u.packages[pi].unlisted.len() {
+                let h = crate::runner::hash_of(&(&b.u.packages[pi].unlisted[ci].deps, pi, ci));
+                if h % 3 == 0 {
+                    b.u.packages[pi].unlisted[ci].excluded = Some((h as usize >> 8) % ns);
+                }
+            }
+        }
+        // a Some-hint may also name solvables the package does not list (derived from the hint
+        // list itself: no extra tape value)
+        if p.lock_gone && !b.u.packages[pi].unlisted.is_empty() {
+            if let Hint::Some(v) = &b.u.packages[pi].hint {
+                b.u.packages[pi].hint_unlisted = v.len() % 2 == 1;
+            }
         }
     }
     b.u
@@ -774,6 +793,7 @@ pub fn gen_conflict_free(t: &mut Tape, p: &Params, with_hints: bool) -> (Univers
             favored,
             locked,
             lock_gone: false,
+            hint_unlisted: false,
             hint,
             unlisted: vec![],
         });
